@@ -10,9 +10,10 @@ sd="$(cd "$1" && pwd)"; pid="$2"; tier="${3:-quick}"
 name="$(basename "$sd")"
 # one fixed scratch path (and -trimpath) so that Go's build cache is shared between runs instead of
 # growing by ~0.5 GB per scratch tree; runs are serialised by a lock
-exec 9>/tmp/seedchk.lock; flock 9
-wt="/tmp/seedchk/repo"
-git -C /repo worktree remove --force "$wt" 2>/dev/null; rm -rf /tmp/seedchk
+slot="${SEEDCHK_SLOT:-}"   # SEEDCHK_SLOT=2,3,…: further fixed scratch paths so that a few runs can go in parallel
+exec 9>/tmp/seedchk$slot.lock; flock 9
+wt="/tmp/seedchk$slot/repo"
+git -C /repo worktree remove --force "$wt" 2>/dev/null; rm -rf /tmp/seedchk$slot
 mkdir -p "$(dirname "$wt")"
 git -C /repo worktree add -q --detach "$wt" HEAD || exit 9
 cleanup() { git -C /repo worktree remove --force "$wt" 2>/dev/null; rm -rf "$(dirname "$wt")"; rm -rf /verif/.build/alt-$(echo "$wt" | cksum | cut -d' ' -f1); }
